@@ -252,6 +252,18 @@ CHECKS = {
         "Exhaustive over the stated alphabets and pin shapes only; every solver runs in a fresh thread (fresh Z3 context).",
         "DESIGN.md §2 C26",
     ),
+    "C20": (
+        "model_checking",
+        "stateless preemption-bounded exploration of real threads under a baton scheduler (call granularity): every schedule with <= 1 (some configurations 2) preemptions executed to completion",
+        "2 (also 3) real threads, each running a 2-5 event solver history on its own solver over shared expressions and "
+        "expressions built inside the threads; scheduling point = entry of ~75 functions of Backend / BackendZ3 / "
+        "FullFrontend / Base that touch shared or thread-local state; oracle: brute-force answers (C11), equality with "
+        "the history run alone, and an ownership monitor (Z3 context, conversion caches and solver belong to the thread).",
+        "Calls between two scheduling points are atomic under the cooperative scheduler: races inside Z3 or at bytecode "
+        "granularity are out of reach. Executions run in one process with the cyclic GC off after warm-up (deterministic "
+        "replay; a prefix that does not replay is re-run in a forked child).",
+        "DESIGN.md §1.4, §2 C20",
+    ),
 }
 
 NOT_YET = "check not built yet in this session (planned; see DESIGN.md §2)"
